@@ -277,12 +277,16 @@ def lookupUnit (digits : Nat) : List (Nat × Nat × Nat) → Option Nat
   | [] => none
   | (lo, hi, dv) :: rest => if lo ≤ digits ∧ digits ≤ hi then some dv else lookupUnit digits rest
 
-/-- `normalize_integer_epoch`: the table is generated from the Rust source. -/
+/-- How an arm of `normalize_integer_epoch` divides: `n.div_euclid(d)` (floor; Lean's `Int./`
+with a positive divisor) or `n / d` on `i128` (truncation) — which one is read from the source. -/
+def divUnit (n : Int) (dv : Nat) : Int := if unitDivFloors then n / (dv : Int) else Int.tdiv n dv
+
+/-- `normalize_integer_epoch`: the table and the rounding mode are generated from the Rust source. -/
 def normalizeIntegerEpoch (n : Int) : Option Int :=
   match lookupUnit (numDigits n.natAbs) unitTable with
   | none => none
   | some dv =>
-    let secs := Int.tdiv n dv
+    let secs := divUnit n dv
     if i64Min ≤ secs ∧ secs ≤ i64Max then some secs else none
 
 /-- `TimeParser::parse_str_to_epoch_seconds` (the `kind` argument does not influence the
